@@ -327,6 +327,27 @@ def sb2c(model):
                 funcs.append(rc[1])
     seen = False
     for f in funcs:
+        for lp in iter_scope(f.node):
+            # loop form: for t in mac.defaults[n]: t = copy.copy(t); arg.append(t); t.pos = start; t.pos_fix = True
+            if isinstance(lp, ast.For) and isinstance(lp.target, ast.Name) and any(
+                    isinstance(x, ast.Attribute) and x.attr == 'defaults' for x in ast.walk(lp.iter)):
+                seen = True
+                v = lp.target.id
+                copies = [a for a in ast.walk(lp) if isinstance(a, ast.Assign) and isinstance(a.targets[0], ast.Name)
+                          and isinstance(a.value, ast.Call) and unparse(a.value.func) in ('copy.copy', 'copy.deepcopy')
+                          and a.value.args and unparse(a.value.args[0]) == v]
+                cv = copies[0].targets[0].id if copies else None
+                stamps = {a.targets[0].attr for a in ast.walk(lp) if isinstance(a, ast.Assign)
+                          and isinstance(a.targets[0], ast.Attribute) and isinstance(a.targets[0].value, ast.Name)
+                          and a.targets[0].value.id == cv}
+                appended = any(isinstance(c, ast.Call) and _call_name(c) == 'append' and c.args
+                               and unparse(c.args[0]) == cv for c in ast.walk(lp))
+                if cv and appended and {'pos', 'pos_fix'} <= stamps:
+                    r.ok(lp, 'default tokens are copied and re-stamped one by one', nontrivial=True)
+                else:
+                    r.fail(lp, '%s: the default of the optional argument is taken over token by token without '
+                           '%s' % (f.qname, 'a copy' if not cv else 'the new position'),
+                           witness='\\newcommand{\\vect}[1][x]{\\mathbf{#1}_n} ... $\\vect$')
         for n in iter_scope(f.node):
             if not (isinstance(n, ast.Assign) and any(isinstance(x, ast.Attribute) and x.attr == 'defaults'
                                                       for x in ast.walk(n.value))):
@@ -852,4 +873,38 @@ def ord1(model):
     if not seen:
         r.undec(f.node, 'derived line fields of the highlight records not recognised')
         r.instances += 1
+    return r
+
+
+# ----------------------------------------------------------------------------- PS8
+def ps8(model):
+    r = RuleResult('PS8', 'no function stores into an attribute of a class object (ClassName.x = ..., cls.x = ..., '
+                   'type(self).x = ..., self.__class__.x = ...): such a value outlives the document / request and is '
+                   'seen by every later one', floor=0)
+    n_fn = 0
+    for f in model.all_funcs():
+        if isinstance(f.node, ast.Lambda):
+            continue
+        n_fn += 1
+        for n in iter_scope(f.node):
+            tg = n.targets if isinstance(n, ast.Assign) else ([n.target] if isinstance(n, ast.AugAssign) else [])
+            for t in tg:
+                if not isinstance(t, ast.Attribute):
+                    continue
+                v = t.value
+                is_cls = False
+                if isinstance(v, ast.Name):
+                    if v.id == 'cls':
+                        is_cls = True
+                    else:
+                        rs = model.resolve_symbol(f.mod, f, v)
+                        is_cls = bool(rs and rs[0] == 'class')
+                elif isinstance(v, ast.Attribute) and v.attr == '__class__':
+                    is_cls = True
+                elif isinstance(v, ast.Call) and getattr(v.func, 'id', '') == 'type' and len(v.args) == 1:
+                    is_cls = True
+                if is_cls:
+                    r.fail(n, '%s stores into the class attribute %s: the value is kept across documents and requests'
+                           % (f.qname, unparse(t)), witness='two identical requests to the server emulation')
+    r.instances += n_fn
     return r
